@@ -1099,6 +1099,49 @@ add({"name": "hfe_opcodes", "file": "dfs/img_hfe.cc", "anchor": r"#define OPCODE
      "toplevel": True, "sig": "", "rules": []})
 add({"name": "is_hfe3_opcode", "file": "dfs/img_hfe.cc", "anchor": r"bool is_hfe3_opcode\(byte val\)",
      "sig": "static bool is_hfe3_opcode(byte val)", "rules": []})
+# ---- img_hfe.cc: the track list (LUT) of an HFE file: where it is read and how its entries are decoded (C05) ----------
+add({"name": "hfe_le_word", "file": "dfs/img_hfe.cc", "anchor": r"unsigned short le_word\(const byte \*d\)",
+     "sig": "static unsigned short hfe_le_word(const byte *d)", "rules": [(r"static_cast<unsigned short>\(", "(unsigned short)(", 1)]})
+add({"name": "PicTrack_ctor", "file": "dfs/img_hfe.cc", "anchor": r"PicTrack\(const unsigned char\* p\)\s*:\s*", "region_end": r"\s*\{\s*\}",
+     "sig": "static void PicTrack_ctor(struct PicTrack *self, const unsigned char *p)",
+     "rules": [(r"^[^:]*:\s*", "", 1), (r"\ble_word\(", "hfe_le_word(", 2), (r"(\w+_)\(((?:[^()]|\([^()]*\))*)\),?\s*", r"self->\1 = (\2); ", 2)]})
+# one spec for both shapes: with the header's track_list_offset handed in (fix of 2026-10-03) and without (pinned code: the
+# emitted function then ignores its parameter and reads at byte 512)
+add({"name": "read_track_offset_lut", "file": "dfs/img_hfe.cc",
+     "anchor": r"std::vector<PicTrack>\s*read_track_offset_lut\(DFS::FileAccess\* f,(?:\s*unsigned (?:int|short|long) track_list_offset,)?\s*unsigned int tracks\)",
+     "sig": "static void read_track_offset_lut(struct FileAccess *f, unsigned int track_list_offset, unsigned int tracks)",
+     "rules": [(r"std::vector<PicTrack> result;", "lut_clear();", 1),
+               (r"std::vector<unsigned char> buf = f->read\(([^;]*)\);", r"struct dynvec buf = FileAccess_read_lut(f, \1);", 1),
+               (r"\bbuf\.size\(\)", "buf.n", ">=1"), (r"\bbuf\.data\(\)", "buf.d", 1),
+               (r"std::ostringstream ss;.*?throw InvalidHfeFile\(ss\.str\(\)\);", "{ VERIF_THROW(Other, 0); return; }", 1),
+               (r"result\.push_back\(PicTrack\(pos\)\);", "lut_push_back(pos);", 1),
+               (r"(for \(unsigned\s+i = 0; i < tracks; \+\+i\))", r"\1 LUT_LOOP_CONTRACT", 1),
+               (r"return result;", "return;", 1)],
+     "dropped": ["diagnostic text"]})
+add({"name": "hfe_le_word_it", "file": "dfs/img_hfe.cc", "anchor": r"unsigned short le_word\(std::vector<byte>::const_iterator d\)",
+     "sig": "static unsigned short hfe_le_word_it(const byte *d)", "rules": [(r"static_cast<unsigned short>\(", "(unsigned short)(", 1)]})
+add({"name": "picfileformatheader", "file": "dfs/img_hfe.cc", "anchor": r"struct picfileformatheader\s*\{", "region_end": r"\n\s*\nunsigned short le_word\(std::vector",
+     "toplevel": True, "sig": "", "rules": []})
+add({"name": "hfe_nextbyte", "file": "dfs/img_hfe.cc", "anchor": r"auto nextbyte = \[&d\]\(\) -> unsigned char\s*",
+     "sig": "static unsigned char hfe_nextbyte(const byte **dp)", "rules": [(r"\*d\+\+", "*(*dp)++", 1)]})
+add({"name": "hfe_nextshort", "file": "dfs/img_hfe.cc", "anchor": r"auto nextshort = \[&d\]\(\) -> unsigned short\s*",
+     "sig": "static unsigned short hfe_nextshort(const byte **dp)",
+     "rules": [(r"auto val = le_word\(d\);", "unsigned short val = hfe_le_word_it(*dp);   /* the iterator overload of le_word */", 1), (r"\bd \+= 2;", "*dp += 2;", 1)]})
+add({"name": "hfe_decode_header", "file": "dfs/img_hfe.cc", "anchor": r"picfileformatheader decode_header\(const std::vector<byte>& header\)",
+     "sig": "static struct picfileformatheader hfe_decode_header(const byte *header)",
+     "rules": [(r"std::vector<byte>::const_iterator d = header\.begin\(\);", "const byte *d = header;", 1),
+               (r"auto nextbyte = \[&d\]\(\) -> unsigned char\s*\{[^{}]*\};", "/* lambda nextbyte: extracted as hfe_nextbyte */", 1),
+               (r"auto nextshort = \[&d\]\(\) -> unsigned short\s*\{[^{}]*\};", "/* lambda nextshort: extracted as hfe_nextshort */", 1),
+               (r"\bpicfileformatheader h;", "struct picfileformatheader h;", 1),
+               (r"std::copy\(d, d\+sizeof\(h\.HEADERSIGNATURE\), h\.HEADERSIGNATURE\);", "bytes_copy_n(h.HEADERSIGNATURE, d, sizeof(h.HEADERSIGNATURE));", 1),
+               (r"std::advance\(d, sizeof\(h\.HEADERSIGNATURE\)\);", "d += sizeof(h.HEADERSIGNATURE);", 1),
+               ASSERT(">=0"),
+               (r"\bnextbyte\(\)", "hfe_nextbyte(&d)", ">=10"), (r"\bnextshort\(\)", "hfe_nextshort(&d)", 3)]})
+add({"name": "hfe_lut_call", "file": "dfs/img_hfe.cc", "anchor": r"std::vector<PicTrack> track_lut = read_track_offset_lut\(",
+     "region_end": r"\n\s*for \(unsigned int side = 0; side < header_\.number_of_side",
+     "sig": "static void hfe_lut_call(struct HfeFileL *self)",
+     "pre": "#define header_ (self->header_)\n", "post": "#undef header_\n",
+     "rules": [(r"std::vector<PicTrack> track_lut = read_track_offset_lut\(file_\.get\(\),\s*([^;]*)\);", r"LUT_CALL(self->file_, \1);", 1)]})
 add({"name": "HfeCopyState", "file": "dfs/img_hfe.cc", "anchor": r"struct HfeCopyState\s*\{", "region_end": r"\n\s*\nvoid copy_hfe",
      "toplevel": True, "sig": "", "optional": True, "fallback": "struct HfeCopyState { int got_bits; byte out; byte this_op; };",
      "rules": [(r"\b(int|byte) (\w+) = 0;", r"\1 \2;   /* = 0: see the initialiser in hfe_side_blocks */", 3)]})
